@@ -7,6 +7,8 @@ import JominiModel.Props.C17
 import JominiModel.Props.C13
 import JominiModel.Props.C15
 import JominiModel.Props.C16
+import JominiModel.Proofs.TextReaderTotal
+import JominiModel.Proofs.BinDeTotal
 /-
 C05 — No input can crash, hang or escape memory bounds in any entry point.
 
